@@ -47,7 +47,7 @@ inductive Ev
   | cb (kind : CbKind) (seq : Nat) (flag isOpen : Bool)
   | cbExit (kind : CbKind) (flag : Bool)
   | store (off n : Nat) (flag isOpen : Bool)
-  | deliver (bytes : Buf) (wasOpen : Bool)
+  | deliver (bytes : Buf) (wasOpen nowOpen : Bool)
   | clockRead (v : Nat)
   | assertFail
   | oob
@@ -57,6 +57,7 @@ inductive Ev
   | traceCall (ert : String) (enabled : Bool)    -- a tracing call, with the enable flag as tested after the clock sample
   | recDone (ert : String) (start end_ : Nat)    -- a record serialised into bits [start, end_) of the current packet
   | discard (cannotFit : Bool)                   -- a record discarded: cannot fit an empty packet | back end full
+  | fullAnswer (full : Bool)                     -- what the is-back-end-full callback answered
   | opened (offContent : Nat) | closed (contentSize : Nat) (seqNum discarded : Nat)
 deriving Repr
 
@@ -87,7 +88,7 @@ def St.halt (s : St) : St := { s with halted := true }
 def St.setPlat (s : St) (p : Plat) : St := { s with p := p }
 
 /-- `ctx->packet_size - <from>` in `uint32_t` arithmetic -/
-def Ctx.room (c : Ctx) (from_ : Nat) : Nat := u32 (c.packetSize + 4294967296 - from_)
+def Ctx.room (c : Ctx) (from_ : Nat) : Nat := subU32 c.packetSize from_
 
 /-- `packet_is_full` l.95 -/
 def Ctx.isFull (c : Ctx) : Bool := c.at_ == c.packetSize
@@ -124,7 +125,7 @@ def cbClock (clk : Clock) (s : St) : Nat × St :=
 def cbFull (s : St) : Bool × St :=
   let s := cbEnter .full s
   let a := s.p.fullAnswers.headD false
-  (a, (s.setPlat { s.p with fullAnswers := s.p.fullAnswers.tail }).ev (.cbExit .full s.c.inTracingSection))
+  (a, ((s.setPlat { s.p with fullAnswers := s.p.fullAnswers.tail }).ev (.fullAnswer a)).ev (.cbExit .full s.c.inTracingSection))
 
 /-- result of a serialisation pass installed into the context -/
 def St.setSer (s : St) (buf : Buf) (at_ : Nat) (saved : List (String × Nat)) (evs : List Ev) : St :=
@@ -238,7 +239,7 @@ def cbOpen (cfg : Cfg) (d : DST) (s : St) : St :=
     to the back end, optionally install another buffer -/
 def deliverAndSwap (wasOpen : Bool) (n : Nat) (s : St) : St :=
   if s.halted then s else
-  let s := s.ev (.deliver s.buf wasOpen)
+  let s := s.ev (.deliver s.buf wasOpen s.c.packetIsOpen)
   let s := match s.p.setBufs.lookup n with
     | some bytes => setBuf bytes s
     | none => s
@@ -291,7 +292,7 @@ def erSizeAt (d : DST) (e : ERT) (args : Args) (at_ : Nat) : Nat :=
   let a := match d.erccOp with | some r => sizeRoot "cc" r args a | none => a
   let a := match e.scOp with | some r => sizeRoot "sc" r args a | none => a
   let a := match e.pOp with | some r => sizeRoot "p" r args a | none => a
-  u32 (a + 4294967296 - at_)
+  subU32 a at_
 
 /-- `_serialize_er_<dst>_<ert>` -/
 def serRecord (env : SerEnv) (d : DST) (e : ERT) (args : Args) (st : SerSt) : SerSt :=
@@ -346,6 +347,7 @@ inductive Op
   | trace (ert : String) (args : Args)
   | enable (b : Bool)
   | query
+  | fin          -- the documented finalisation idiom: close if open and not empty
 deriving Repr
 
 def stepOp (cfg : Cfg) (d : DST) (op : Op) (s : St) : St :=
@@ -359,6 +361,7 @@ def stepOp (cfg : Cfg) (d : DST) (op : Op) (s : St) : St :=
       | none => ("trace", s)
     | .enable b => ("enable", s.setEnabled b)
     | .query => ("query", s)
+    | .fin => ("fin", if s.c.packetIsOpen && !s.c.isEmpty then cbClose cfg d s else s)
   if s.halted then s else s.ev (.ret name s.c s.buf.length)
 
 def runOps (cfg : Cfg) (d : DST) (ops : List Op) (s : St) : St :=
